@@ -5,7 +5,8 @@
    calls, task steps, attempt outcomes (scripted per attempt: ok / OSError, deferred / inline),
    connection_lost, GOAWAY, keepalive close, Channel.close(), task cancellation, pause/resume, answers. *)
 From Coq Require Import List Bool Arith.
-From GV Require Import Model.Channel Proofs.C16Proofs Proofs.C16Examples.
+From Coq Require Import ZArith String.
+From GV Require Import Lib.Str Gen.FactsC16 Model.Channel Proofs.C16Proofs Proofs.C16Examples Proofs.C16Source.
 Import ListNotations.
 
 (* (1) never more than one connection attempt in progress (lock holders, and attempts in flight) *)
@@ -188,3 +189,28 @@ Theorem C16_fifo_is_schedule :
   forall s b, snd (batch s b) = run (fst (batch s b)) s.
 Proof. exact batch_is_run. Qed.
 Print Assumptions C16_fifo_is_schedule.
+
+(* (10) the functions the model transcribes read, in /repo as it is now (Gen/FactsC16.v is regenerated on
+   every run), exactly as the text the model was written from (Proofs/C16Source.v): the double-checked
+   connect under the lock without re-check after the await, the three conjuncts of _connected,
+   close() = processor.close() + del _protocol, Handler.close, EventsProcessor.close, connection_lost,
+   process_connection_terminated, Connection.is_closing / close, the class attributes *)
+Theorem C16_source_as_transcribed :
+  src_Channel_connected = map s2z exp_Channel_connected /\
+  src_Channel_connect = map s2z exp_Channel_connect /\
+  src_Channel_close = map s2z exp_Channel_close /\
+  src_Channel_aexit = map s2z exp_Channel_aexit /\
+  src_Channel_del = map s2z exp_Channel_del /\
+  src_Handler_close = map s2z exp_Handler_close /\
+  src_EventsProcessor_close = map s2z exp_EventsProcessor_close /\
+  src_EventsProcessor_process_connection_terminated = map s2z exp_EventsProcessor_process_connection_terminated /\
+  src_H2Protocol_connection_lost = map s2z exp_H2Protocol_connection_lost /\
+  src_Connection_is_closing = map s2z exp_Connection_is_closing /\
+  src_Connection_close = map s2z exp_Connection_close /\
+  async_Channel_connect = true /\
+  dec_Channel_connected = [s2z "property"] /\
+  async_Channel_close = false /\
+  channel_protocol_class_attr = s2z "None" /\
+  handler_connection_lost_class_attr = s2z "False".
+Proof. exact source_as_transcribed. Qed.
+Print Assumptions C16_source_as_transcribed.
